@@ -40,7 +40,8 @@ def to_gemato(e):
     from gemato import manifest as gm
     t = e['tag']
     if t == 'TIMESTAMP':
-        return gm.ManifestEntryTIMESTAMP(ts_dt(e['ts']))
+        return gm.ManifestEntryTIMESTAMP(
+            ts_dt(e['ts']).replace(microsecond=e.get('us', 0)))
     if t == 'IGNORE':
         return gm.ManifestEntryIGNORE(e['path'])
     return gm.new_manifest_entry(t, e['path'], e['size'], dict(e['sums']))
